@@ -1,6 +1,9 @@
 """DEV-TIME experiment: every check must give the same verdict when all sources are replaced by ast.unparse(ast.parse(text))
 (formatting, comments, line numbers, quoting all change; behaviour does not)."""
-import ast, sys, importlib
+import ast, os, sys, importlib
+if sys.version_info[:2] != (3, 12) and os.path.exists("/venv/bin/python"):
+    # the checks run under /venv/bin/python (3.12); ast.dump, on which the C19 replica digests rest, differs between interpreter versions
+    os.execv("/venv/bin/python", ["/venv/bin/python", "-B"] + sys.argv)
 sys.path.insert(0, '/verif')
 sys.setrecursionlimit(10000)
 from sa.core import Source, Run, REPO, AnalysisError, load_known
